@@ -136,7 +136,7 @@ class NameValuePair(FieldParsableBase):
 @attr.s
 class NameValuePairList(ParsableBase, Serializable):
     value = attr.ib(
-        default=collections.OrderedDict([]),
+        default=attr.Factory(collections.OrderedDict),
         validator=attr.validators.instance_of(collections.OrderedDict),
     )
 
